@@ -32,13 +32,17 @@
      CopyNoReparentBug  copy_children() without the re-parenting loop
      EraseKeepsBug      release() forgets children_.erase(it)
      PushFrontRetBug    push_front() returns children_.back()
+     MoveAssignInPlaceBug  operator=(&&) written as  children_ = std::move(other.children_)
+                        plus a re-parenting loop: the list assignment destroys the old
+                        children first - and with them a source that is a descendant of the
+                        destination, together with the children that were to be adopted
    ReleaseNoClear = TRUE drops `ret.parent_ = nullptr` from release()/pop_*():
    TLC finds NO violation - the statement is redundant because the move
    constructor already leaves parent_ null (an equivalent mutant, see notes). *)
 EXTENDS Tree
 
 CONSTANTS SwapBug, CopyAssignBug, MoveAssignBug, InsertNoParentBug, CopyNoReparentBug,
-          EraseKeepsBug, PushFrontRetBug, ReleaseNoClear
+          EraseKeepsBug, PushFrontRetBug, ReleaseNoClear, MoveAssignInPlaceBug
 
 VARIABLES heap,    \* sequence of [v, par, kids, live]; index = address
           roots,   \* [1..NS -> id or 0]
@@ -130,8 +134,12 @@ CopyAssign(h, this, other) ==
    children_ = move_children(move(other.children_)); [std::swap(parent_, other.parent_);] *)
 MoveAssign(h, this, other) ==
   LET ks == h[other].kids
-      h1 == SetPar([h EXCEPT ![other].kids = <<>>], ks, this)
-      h2 == KillList(h1, h[this].kids)
+      \* move_children: the source's list is moved out (move_clear) and re-parented BEFORE the
+      \* destination's old children - possibly owning the source - are destroyed
+      h1 == IF MoveAssignInPlaceBug THEN h ELSE SetPar([h EXCEPT ![other].kids = <<>>], ks, this)
+      h2 == IF MoveAssignInPlaceBug
+            THEN SetPar([KillList(h1, h[this].kids) EXCEPT ![other].kids = <<>>], ks, this)
+            ELSE KillList(h1, h[this].kids)
       h3 == [h2 EXCEPT ![this].v = h[other].v, ![this].kids = ks]
   IN IF MoveAssignBug THEN [h3 EXCEPT ![this].par = h[other].par, ![other].par = h[this].par] ELSE h3
 
